@@ -94,22 +94,44 @@ def check(ctx):
                leaves[0].kind if leaves else '', leaves[0].loc() if leaves else ''))
     # the failure list: created before the loop, grows with the argument itself (in the
     # loop's function or in a result object it feeds)
+    def outcome_tuple(v):
+        t = strip(v)
+        return isinstance(t, TupleT) and any(alt_ids(x) == r.arg_ids for x in t.items)
     appends = [n for n in b.nodes('append') if n.id in region and
                n.data['list'].site not in region and
                (n.func == loop.func or alt_ids(n.data['value']) == r.arg_ids)]
+    # two-stage form: the loop collects (argument, result) pairs, a pass after the loop
+    # keeps the arguments whose result is Failure -- the pass's appends are the failure
+    # list then, the pairs only have to be collected for every Failure (checked below)
+    stage1 = [a for a in appends if outcome_tuple(a.data['value'])]
+    stage1_lists = set(cid(a.data['list']) for a in stage1)
+    stage2 = [n for n in b.nodes('append') if n.id not in region and stage1 and
+              alt_ids(n.data['value']) == r.arg_ids and
+              any(g.n(l).kind == 'loop' and g.n(l).data.get('iter') is not None and
+                  cid(strip(g.n(l).data['iter'])) in stage1_lists
+                  for l in g.dominators(n.id))]
+    collectors = [a for a in appends if a not in stage1] + stage2
     ctx.ob('R16.1', 'failures are collected in one list created before the loop',
-           len(appends) >= 1, node=loop, construct=loop.func, text='failure list',
+           len(collectors) >= 1, node=loop, construct=loop.func, text='failure list',
            message='failed arguments are no longer collected')
     flist_ids = set()
-    for a in appends:
+    for a in collectors:
         flist_ids.add(cid(a.data['list']))
         val_ok = alt_ids(a.data['value']) == r.arg_ids
         guard_ok = False
+        scope = region
+        if a in stage2:
+            scope = set()
+            for l in g.dominators(a.id):
+                ln = g.n(l)
+                if ln.kind == 'loop' and ln.data.get('iter') is not None and \
+                        cid(strip(ln.data['iter'])) in stage1_lists:
+                    scope |= r.loop_body(ln)
         for c, pol, n in guards(b, a.id):
             c2, p2 = unwrap_not(c, pol)
             if isinstance(c2, Cmp) and c2.op in ('==', 'is') and p2 and any(
                     isinstance(strip(x), EnumVal) and strip(x).name == 'Failure'
-                    for x in (c2.left, c2.right)) and n.id in region:
+                    for x in (c2.left, c2.right)) and n.id in scope:
                 guard_ok = True
         ctx.ob('R16.1', 'the failure list grows with the argument exactly when its result is '
                         'Failure', val_ok and guard_ok, node=a,
